@@ -200,4 +200,6 @@ func runC02(c *Ctx) {
 	}
 	runPushPullScenarios(c)
 	c02EndToEnd(c)
+	runPairDialerSecond(c)
+	runPushBurst(c)
 }
